@@ -554,3 +554,247 @@ Proof.
     change (AvEnt nm :: items_pieces q c p (i + 1) v) with ([AvEnt nm] ++ items_pieces q c p (i + 1) v).
     rewrite !av_value_app. f_equal. apply IH.
 Qed.
+(** ** [43] character data: [text_chars] is read back by [p_content] as items whose characters are the
+    abstract text, whatever mixture of literal characters, character references, predefined entity
+    references and CDATA sections the oracle chose *)
+Definition text_esc (prev ch : char) : bool :=
+  (N.eqb ch c_lt || N.eqb ch c_amp || N.eqb ch c_cr || (N.eqb ch c_gt && N.eqb prev c_rbr))%bool.
+
+(** the rendering of one step: a unit followed by the rendering of the rest *)
+Inductive unit_of (prev ch : char) : str -> Prop :=
+| ULit : text_esc prev ch = false -> unit_of prev ch [ch]
+| URef k : unit_of prev ch (char_ref k ch)
+| UEnt nm : predef_name ch = Some nm -> unit_of prev ch (entity_ref nm)
+| UEmptyLit : text_esc prev ch = false -> unit_of prev ch (s_cdata_open ++ s_cdata_close ++ [ch])
+| UEmptyRef k : unit_of prev ch (s_cdata_open ++ s_cdata_close ++ char_ref k ch).
+
+Inductive step_shape (f : nat) (c : choices) (p : list N) (i : N) (prev : char) (ch : char) (t : str) : str -> Prop :=
+| SOne u : unit_of prev ch u -> step_shape f c p i prev ch t (u ++ text_chars f c p (i + 1) ch t)
+| SRun run rest : ch :: t = run ++ rest -> run <> [] -> existsb (N.eqb c_rbr) run = false -> existsb (N.eqb c_cr) run = false ->
+    step_shape f c p i prev ch t (s_cdata_open ++ run ++ s_cdata_close ++ text_chars f c p (i + N.of_nat (length run)) (last run ch) rest).
+
+Lemma take_run_spec n s a b : take_run n s = (a, b) -> s = a ++ b /\ existsb (N.eqb c_rbr) a = false.
+Proof.
+  revert s a b; induction n as [|n IH]; intros s a b; cbn [take_run].
+  - intros H; injection H as <- <-. auto.
+  - destruct s as [|ch t]; [intros H; injection H as <- <-; auto|].
+    destruct (N.eqb ch c_rbr) eqn:E; [intros H; injection H as <- <-; auto|].
+    destruct (take_run n t) as [a' b'] eqn:E'. intros H; injection H as <- <-.
+    destruct (IH _ _ _ E') as [-> Hn]. split; [reflexivity|]. cbn [existsb]. rewrite (N.eqb_sym c_rbr ch), E. exact Hn.
+Qed.
+
+Lemma text_step f c p i prev ch t : step_shape f c p i prev ch t (text_chars (S f) c p i prev (ch :: t)).
+Proof.
+  cbn [text_chars]. fold (text_esc prev ch).
+  set (k := c (i :: p)).
+  assert (Hlit : step_shape f c p i prev ch t ((if text_esc prev ch then char_ref (k / 8) ch else [ch]) ++ text_chars f c p (i + 1) ch t)).
+  { apply SOne. destruct (text_esc prev ch) eqn:E; [apply URef|now apply ULit]. }
+  assert (Hrf : step_shape f c p i prev ch t (char_ref (k / 8) ch ++ text_chars f c p (i + 1) ch t)).
+  { apply SOne. apply URef. }
+  assert (Hdefault : step_shape f c p i prev ch t
+    (match take_run (S (N.to_nat ((k / 8) mod 4))) (ch :: t) with
+     | ([], _) => char_ref (k / 8) ch ++ text_chars f c p (i + 1) ch t
+     | ((c0 :: l) as run, rest) =>
+       if existsb (N.eqb c_cr) run then char_ref (k / 8) ch ++ text_chars f c p (i + 1) ch t
+       else s_cdata_open ++ run ++ s_cdata_close ++ text_chars f c p (i + N.of_nat (length run)) (last run ch) rest
+     end)).
+  { destruct (take_run (S (N.to_nat ((k / 8) mod 4))) (ch :: t)) as [[|c0 l] rest] eqn:E; [exact Hrf|].
+    destruct (existsb (N.eqb c_cr) (c0 :: l)) eqn:Ecr; [exact Hrf|].
+    destruct (take_run_spec _ _ _ _ E) as [Hs Hn]. apply SRun; [exact Hs|discriminate|exact Hn|exact Ecr]. }
+  destruct (N.modulo k 8) as [|m]; [exact Hlit|].
+  destruct m as [[m|m|]|[m|m|]|]; try exact Hlit; try exact Hrf; try exact Hdefault.
+  - (* 5, or 13.. *) destruct m; try exact Hdefault.
+    apply SOne. destruct (text_esc prev ch) eqn:E; [apply UEmptyRef|now apply UEmptyLit].
+  - (* 4 *) destruct m; try exact Hdefault.
+    apply SOne. destruct (predef_name ch) as [nm|] eqn:En; [now apply UEnt|].
+    destruct (text_esc prev ch) eqn:E; [apply URef|now apply ULit].
+Qed.
+
+Definition follow_ok (T : str) : Prop := match T with [] => True | x :: _ => x = c_lt \/ x = c_amp end.
+
+Lemma unit_head prev ch u : unit_of prev ch u ->
+  exists x r, u = x :: r /\ ((x = ch /\ text_esc prev ch = false /\ r = []) \/ x = c_amp \/ x = c_lt).
+Proof.
+  intros [H|k|nm H|H|k].
+  - exists ch, []. auto.
+  - unfold char_ref. destruct (N.eqb (N.modulo k 2) 0); eexists; eexists; split; try reflexivity; auto.
+  - exists c_amp, (nm ++ [c_semi]). auto.
+  - eexists; eexists; split; [reflexivity|auto].
+  - eexists; eexists; split; [reflexivity|auto].
+Qed.
+
+Lemma starts_cons x y r l : starts (x :: l) (y :: r) = (N.eqb x y && starts l r)%bool.
+Proof. unfold starts. cbn [strip]. destruct (N.eqb x y); [|reflexivity]. reflexivity. Qed.
+
+Lemma starts_nil_r x l : starts (x :: l) [] = false.
+Proof. reflexivity. Qed.
+
+Lemma follow_not_gt T : follow_ok T -> starts [c_gt] T = false.
+Proof. destruct T as [|x T]; [reflexivity|]. cbn [follow_ok]. intros [-> | ->]; reflexivity. Qed.
+
+Lemma follow_not_rbr T : follow_ok T -> starts [c_rbr; c_gt] T = false.
+Proof. destruct T as [|x T]; [reflexivity|]. cbn [follow_ok]. intros [-> | ->]; reflexivity. Qed.
+
+Lemma text_chars_nil f c p i prev : text_chars f c p i prev [] = [].
+Proof. destruct f; reflexivity. Qed.
+
+Lemma esc_gt_after_rbr : text_esc c_rbr c_gt = true.
+Proof. reflexivity. Qed.
+
+(** after "]" the rendering never continues with ">" *)
+Lemma no_gt_start f c p i s T : follow_ok T -> starts [c_gt] (text_chars f c p i c_rbr s ++ T) = false.
+Proof.
+  intros HT. destruct f as [|f]; [cbn [text_chars app]; now apply follow_not_gt|].
+  destruct s as [|ch t]; [cbn [text_chars app]; now apply follow_not_gt|].
+  destruct (text_step f c p i c_rbr ch t) as [u Hu|run rest Hs Hne _ _].
+  - destruct (unit_head _ _ _ Hu) as (x & r & -> & Hx). cbn [app]. rewrite starts_cons.
+    destruct Hx as [(-> & He & _)|[-> | ->]]; try reflexivity.
+    destruct (N.eqb_spec c_gt ch) as [<-|]; [|reflexivity]. rewrite esc_gt_after_rbr in He. discriminate.
+  - reflexivity.
+Qed.
+
+(** the rendering never starts with "]>" *)
+Lemma no_rbr_gt_start f c p i prev s T : follow_ok T -> starts [c_rbr; c_gt] (text_chars f c p i prev s ++ T) = false.
+Proof.
+  intros HT. destruct f as [|f]; [cbn [text_chars app]; now apply follow_not_rbr|].
+  destruct s as [|ch t]; [cbn [text_chars app]; now apply follow_not_rbr|].
+  destruct (text_step f c p i prev ch t) as [u Hu|run rest Hs Hne _ _].
+  - destruct (unit_head _ _ _ Hu) as (x & r & -> & Hx). cbn [app]. rewrite starts_cons.
+    destruct Hx as [(-> & He & ->)|[-> | ->]]; try reflexivity.
+    destruct (N.eqb_spec c_rbr ch) as [<-|]; [|reflexivity]. cbn [andb app].
+    now apply no_gt_start.
+  - reflexivity.
+Qed.
+
+(** ** one step of [p_content] *)
+Lemma pc_char fuel ch X : isChar ch = true -> N.eqb ch c_lt = false -> N.eqb ch c_amp = false ->
+  starts s_cdata_close (ch :: X) = false ->
+  p_content (S fuel) (ch :: X) = bind (p_content fuel X) (fun '(l, r) => Some (XChar ch :: l, r)).
+Proof.
+  intros Hc Hl Ha Hs. cbn [p_content]. rewrite Hl, Ha, Hc, Hs. cbn [andb negb].
+  destruct (p_content fuel X) as [[l r]|]; reflexivity.
+Qed.
+
+Lemma pc_ref fuel t rf X : p_ref t = Some (rf, X) ->
+  p_content (S fuel) (c_amp :: t) =
+  bind (p_content fuel X) (fun '(l, r) => Some ((match rf with RChar n => XCharRef n | REnt nm => XEntRef nm end) :: l, r)).
+Proof.
+  intros H. cbn [p_content]. change (N.eqb c_amp c_lt) with false. rewrite N.eqb_refl. cbv iota.
+  rewrite H. cbn [bind]. destruct (p_content fuel X) as [[l r]|]; reflexivity.
+Qed.
+
+Lemma pc_cdata fuel Y b X : scan_to s_cdata_close Y = Some (b, X) ->
+  p_content (S fuel) (s_cdata_open ++ Y) = bind (p_content fuel X) (fun '(l, r) => Some (XCData b :: l, r)).
+Proof.
+  intros H. unfold s_cdata_open. cbn [app p_content]. change (N.eqb 60 c_lt) with true. cbv iota.
+  change (starts s_etag_open (60%N :: 33%N :: 91%N :: 67%N :: 68%N :: 65%N :: 84%N :: 65%N :: 91%N :: Y)) with false. cbv iota.
+  change (strip s_comment_open (60%N :: 33%N :: 91%N :: 67%N :: 68%N :: 65%N :: 84%N :: 65%N :: 91%N :: Y)) with (@None str).
+  change (strip s_cdata_open (60%N :: 33%N :: 91%N :: 67%N :: 68%N :: 65%N :: 84%N :: 65%N :: 91%N :: Y)) with (Some Y).
+  cbv iota. rewrite H. cbn [bind]. destruct (p_content fuel X) as [[l r]|]; reflexivity.
+Qed.
+
+Lemma scan_to_cdata run X : all_chars run = true -> existsb (N.eqb c_rbr) run = false ->
+  scan_to s_cdata_close (run ++ s_cdata_close ++ X) = Some (run, X).
+Proof.
+  induction run as [|ch t IH]; intros Hc Hn.
+  - cbn [app]. rewrite scan_to_eq, strip_app. reflexivity.
+  - cbn [all_chars forallb] in Hc. apply andb_true_iff in Hc. destruct Hc as [Hcc Hct].
+    cbn [existsb] in Hn. apply orb_false_iff in Hn. destruct Hn as [Hn1 Hn2].
+    cbn [app]. rewrite scan_to_eq. unfold s_cdata_close at 1. cbn [strip]. fold c_rbr. rewrite Hn1.
+    rewrite Hcc, (IH Hct Hn2). reflexivity.
+Qed.
+
+(** the characters of text-like items (a predefined entity reference stands for its character) *)
+Definition predef_char (nm : str) : str :=
+  if str_eqb nm s_lt then [c_lt] else if str_eqb nm s_gt then [c_gt] else if str_eqb nm s_amp then [c_amp]
+  else if str_eqb nm s_apos then [c_apos] else if str_eqb nm s_quot then [c_quot] else [].
+
+Fixpoint chars_of (l : list xcontent) : str :=
+  match l with
+  | [] => []
+  | XChar ch :: t => ch :: chars_of t
+  | XCData s :: t => s ++ chars_of t
+  | XCharRef n :: t => n :: chars_of t
+  | XEntRef nm :: t => predef_char nm ++ chars_of t
+  | _ :: t => chars_of t
+  end.
+
+Lemma predef_char_name ch nm : predef_name ch = Some nm -> predef_char nm = [ch].
+Proof.
+  unfold predef_name.
+  repeat (match goal with |- (if ?b then _ else _) = _ -> _ => destruct b eqn:?E; [apply N.eqb_eq in E; subst ch; intros H; injection H as <-; reflexivity|clear E] end).
+  discriminate.
+Qed.
+
+Lemma esc_false prev ch : text_esc prev ch = false -> N.eqb ch c_lt = false /\ N.eqb ch c_amp = false.
+Proof. unfold text_esc. intros H. repeat (apply orb_false_iff in H; destruct H as [H ?]). auto. Qed.
+
+Lemma lit_starts f c p i ch t T : follow_ok T ->
+  starts s_cdata_close (ch :: text_chars f c p (i + 1) ch t ++ T) = false.
+Proof.
+  intros HT. unfold s_cdata_close. rewrite starts_cons. fold c_rbr.
+  destruct (N.eqb_spec c_rbr ch) as [<-|]; [|reflexivity]. cbn [andb].
+  change [93%N; 62%N] with [c_rbr; c_gt]. now apply no_rbr_gt_start.
+Qed.
+
+Theorem text_reads_back : forall c p f i prev s, all_chars s = true -> length s <= f ->
+  exists items n, chars_of items = s /\
+    forall fuel T, follow_ok T ->
+      p_content (n + fuel) (text_chars f c p i prev s ++ T) =
+      bind (p_content fuel T) (fun '(l, r) => Some (items ++ l, r)).
+Proof.
+  intros c p. induction f as [|f IH]; intros i prev s Hc Hl.
+  - destruct s; [|cbn in Hl; lia]. exists [], 0. split; [reflexivity|]. intros fuel T _. cbn [text_chars app Nat.add].
+    destruct (p_content fuel T) as [[l r]|]; reflexivity.
+  - destruct s as [|ch t].
+    { exists [], 0. split; [reflexivity|]. intros fuel T _. cbn [text_chars app Nat.add].
+      destruct (p_content fuel T) as [[l r]|]; reflexivity. }
+    cbn [all_chars forallb] in Hc. apply andb_true_iff in Hc. destruct Hc as [Hch Hct]. cbn [length] in Hl.
+    destruct (text_step f c p i prev ch t) as [u Hu|run rest Hs Hne Hnr Hncr].
+    + (* a single character in one of five forms *)
+      destruct (IH (i + 1)%N ch t Hct ltac:(lia)) as (items & n & Hitems & Hrun).
+      assert (Hlitc : forall fuel T, follow_ok T -> text_esc prev ch = false ->
+                p_content (S (n + fuel)) (ch :: text_chars f c p (i + 1) ch t ++ T) =
+                bind (p_content fuel T) (fun '(l, r) => Some ((XChar ch :: items) ++ l, r))).
+      { intros fuel T HT He. destruct (esc_false _ _ He) as [H1 H2].
+        rewrite (pc_char _ ch _ Hch H1 H2 (lit_starts f c p i ch t T HT)). rewrite (Hrun fuel T HT).
+        destruct (p_content fuel T) as [[l r]|]; reflexivity. }
+      assert (Hrefc : forall k fuel T, follow_ok T ->
+                p_content (S (n + fuel)) (char_ref k ch ++ text_chars f c p (i + 1) ch t ++ T) =
+                bind (p_content fuel T) (fun '(l, r) => Some ((XCharRef ch :: items) ++ l, r))).
+      { intros k fuel T HT. pose proof (char_ref_roundtrip k ch (text_chars f c p (i + 1) ch t ++ T) (isChar_bound ch Hch)) as Hr.
+        assert (Hs : exists tl', char_ref k ch = c_amp :: tl') by (unfold char_ref; destruct (N.eqb (N.modulo k 2) 0); eexists; reflexivity).
+        destruct Hs as [tl' Et]. rewrite Et in *. cbn [tl app] in *.
+        rewrite (pc_ref _ _ _ _ Hr). rewrite (Hrun fuel T HT). destruct (p_content fuel T) as [[l r]|]; reflexivity. }
+      inversion Hu as [He|k|nm Hn|He|k]; subst u.
+      * exists (XChar ch :: items), (S n). split; [cbn [chars_of]; now rewrite Hitems|].
+        intros fuel T HT. cbn [app Nat.add]. now apply Hlitc.
+      * exists (XCharRef ch :: items), (S n). split; [cbn [chars_of]; now rewrite Hitems|].
+        intros fuel T HT. cbn [Nat.add]. rewrite <- app_assoc. now apply Hrefc.
+      * exists (XEntRef nm :: items), (S n). split; [cbn [chars_of]; now rewrite (predef_char_name _ _ Hn), Hitems|].
+        intros fuel T HT. cbn [Nat.add]. unfold entity_ref. rewrite <- !app_assoc. cbn [app]. rewrite <- !app_assoc. cbn [app].
+        pose proof (p_ref_entity nm (text_chars f c p (i + 1) ch t ++ T) (predef_name_Name _ _ Hn)) as Hr.
+        rewrite (pc_ref _ _ _ _ Hr). rewrite (Hrun fuel T HT). destruct (p_content fuel T) as [[l r]|]; reflexivity.
+      * exists (XCData [] :: XChar ch :: items), (S (S n)). split; [cbn [chars_of app]; now rewrite Hitems|].
+        intros fuel T HT. cbn [Nat.add]. rewrite <- !app_assoc.
+        rewrite (pc_cdata _ _ [] ([ch] ++ text_chars f c p (i + 1) ch t ++ T))
+          by (rewrite scan_to_eq, strip_app; reflexivity).
+        cbn [app]. rewrite (Hlitc fuel T HT He). destruct (p_content fuel T) as [[l r]|]; reflexivity.
+      * exists (XCData [] :: XCharRef ch :: items), (S (S n)). split; [cbn [chars_of app]; now rewrite Hitems|].
+        intros fuel T HT. cbn [Nat.add]. rewrite <- !app_assoc.
+        rewrite (pc_cdata _ _ [] (char_ref k ch ++ text_chars f c p (i + 1) ch t ++ T))
+          by (rewrite scan_to_eq, strip_app; reflexivity).
+        rewrite (Hrefc k fuel T HT). destruct (p_content fuel T) as [[l r]|]; reflexivity.
+    + (* a CDATA section around a run *)
+      assert (Hall : all_chars (run ++ rest) = true) by (rewrite <- Hs; cbn [all_chars forallb]; now rewrite Hch).
+      unfold all_chars in Hall. rewrite forallb_app in Hall. apply andb_true_iff in Hall. destruct Hall as [Har Hrest].
+      assert (Hlen : length rest <= f).
+      { assert (length (ch :: t) = length (run ++ rest)) by now rewrite Hs. rewrite app_length in H. cbn [length] in H.
+        destruct run; [now elim Hne|cbn [length] in H; lia]. }
+      destruct (IH (i + N.of_nat (length run))%N (last run ch) rest Hrest Hlen) as (items & n & Hitems & Hrun).
+      exists (XCData run :: items), (S n). split; [cbn [chars_of]; now rewrite Hitems|].
+      intros fuel T HT. cbn [Nat.add]. rewrite <- !app_assoc.
+      rewrite (pc_cdata _ _ run (text_chars f c p (i + N.of_nat (length run)) (last run ch) rest ++ T))
+        by (apply scan_to_cdata; assumption).
+      rewrite (Hrun fuel T HT). destruct (p_content fuel T) as [[l r]|]; reflexivity.
+Qed.
